@@ -494,6 +494,14 @@ cdef class InterCoefficient(Coefficient):
             return self.poly[-1, -1]
         if self.dt:
             idx = <size_t>((t - self.tlist[0]) / self.dt)
+            # The quotient is only a guess: rounding can leave it one interval
+            # off. Keep it only if ``tlist[idx] <= t < tlist[idx+1]``.
+            if (
+                idx >= <size_t>(self.tlist.shape[0] - 1)
+                or t < self.tlist[idx]
+                or t >= self.tlist[idx + 1]
+            ):
+                idx = self._binary_search(t)
         else:
             idx = self._binary_search(t)
         if self.order == 0:
